@@ -950,8 +950,10 @@ func mainC17(e *env) {
 	secs := 45
 	detSeeds := uint64(32)
 	repSeeds := uint64(8)
-	minBudget := 60 * time.Second
+	minBudget := 30 * time.Second
+	maxMin := 2
 	if e.tier == "thorough" {
+		maxMin = 4
 		secs = 1200
 		detSeeds = 512
 		repSeeds = 96
@@ -998,11 +1000,17 @@ func mainC17(e *env) {
 	knownHit := map[string]int{}
 	var vioSamples []any
 	reported := map[string]bool{}
+	handled := map[string]string{} // signature -> "violation" | known id
+	minimised := 0
 	for _, f := range a.failures {
 		if f.Case == nil {
 			continue
 		}
-		if violations >= 3 {
+		sig0 := f.Verdict + "|" + sigOf(f)
+		if _, ok := handled[sig0]; ok {
+			continue
+		}
+		if minimised >= maxMin {
 			break
 		}
 		// confirm in a fresh process
@@ -1017,15 +1025,19 @@ func mainC17(e *env) {
 			cf.Report = f.Report
 		}
 		cf.I, cf.Seed, cf.Profile = f.I, f.Seed, f.Profile
+		minimised++
 		min, mf, tried := x.minimise(cf, minBudget)
 		mf.I, mf.Seed, mf.Profile = f.I, f.Seed, f.Profile
+		if mf.Report == "" {
+			mf.Report = cf.Report
+		}
 		if k := x.attribute(min, mf, known); k != nil {
 			knownHit[k.ID]++
-			if knownHit[k.ID] == 1 {
-				fmt.Printf("KNOWN-FINDING: property=C17 id=%s %s\n", k.ID, k.Text)
-			}
+			handled[sig0] = k.ID
+			fmt.Printf("KNOWN-FINDING: property=C17 id=%s %s\n", k.ID, k.Text)
 			continue
 		}
+		handled[sig0] = "violation"
 		sig := mf.Verdict + "|" + sigOf(mf)
 		if reported[sig] {
 			continue
